@@ -210,7 +210,7 @@ def _clone(v, memo):
     if i in memo:
         return memo[i]
     if isinstance(v, list):
-        r = []
+        r = v.__class__() if type(v) is not list else []  # keeps GenList (generator expression results)
         memo[i] = r
         r.extend(_clone(x, memo) for x in v)
         return r
@@ -842,6 +842,13 @@ class Executor:
         node = fr.node
         saved_file = getattr(self, "_cur_file", "?")
         env = self.bind_args(fr, args, kwargs, bound_self)
+        if ".<locals>." in fr.qualname:
+            # a nested function reads the variables of its enclosing function (closure): supported when it is called
+            # from that function's own frame
+            outer = st.env
+            owner = outer.get("__func__")
+            if owner is not None and fr.qualname.startswith(owner.qualname + ".<locals>."):
+                env = dict({k: v for k, v in outer.items() if k not in env}, **env)
         if extra_env:
             env.update(extra_env)
         st.frames.append(env)
@@ -1314,7 +1321,14 @@ class Executor:
         return self.models.comprehension(self, node, st, "list")
 
     def expr_GeneratorExp(self, node, st):
-        return self.models.comprehension(self, node, st, "list")
+        from .models import GenList
+
+        out = []
+        for r in self.models.comprehension(self, node, st, "list"):
+            if isinstance(r, Val) and type(r.v) is list:
+                r = Val(GenList(r.v), r.st)
+            out.append(r)
+        return out
 
     def expr_SetComp(self, node, st):
         return self.models.comprehension(self, node, st, "set")
